@@ -798,11 +798,13 @@ where
                 self.resample_ratio = new_ratio;
             }
             self.target_ratio = new_ratio;
-            self.needed_input_size = (self.last_index as f32
-                + self.chunk_size as f32
-                    / (0.5 * self.resample_ratio as f32 + 0.5 * self.target_ratio as f32))
-                .ceil() as usize
-                + POLYNOMIAL_LEN_U;
+            // The read position advances by the sum of the per-frame steps,
+            // which ramp linearly from 1/resample_ratio to 1/target_ratio.
+            let t_ratio = 1.0 / self.resample_ratio;
+            let t_ratio_end = 1.0 / self.target_ratio;
+            let frames = self.chunk_size as f64;
+            let advance = frames * t_ratio + 0.5 * (t_ratio_end - t_ratio) * (frames + 1.0);
+            self.needed_input_size = (self.last_index + advance).ceil() as usize + POLYNOMIAL_LEN_U;
             Ok(())
         } else {
             Err(ResampleError::RatioOutOfBounds {
@@ -820,11 +822,13 @@ where
                 self.resample_ratio = new_ratio;
             }
             self.target_ratio = new_ratio;
-            self.needed_input_size = (self.last_index as f32
-                + self.chunk_size as f32
-                    / (0.5 * self.resample_ratio as f32 + 0.5 * self.target_ratio as f32))
-                .ceil() as usize
-                + POLYNOMIAL_LEN_U;
+            // The read position advances by the sum of the per-frame steps,
+            // which ramp linearly from 1/resample_ratio to 1/target_ratio.
+            let t_ratio = 1.0 / self.resample_ratio;
+            let t_ratio_end = 1.0 / self.target_ratio;
+            let frames = self.chunk_size as f64;
+            let advance = frames * t_ratio + 0.5 * (t_ratio_end - t_ratio) * (frames + 1.0);
+            self.needed_input_size = (self.last_index + advance).ceil() as usize + POLYNOMIAL_LEN_U;
             Ok(())
         } else {
             Err(ResampleError::RatioOutOfBounds {
